@@ -13,6 +13,7 @@ import (
 	"verif/hspec"
 	"verif/mon"
 	"verif/zoo"
+	"verif/zoo/alt4"
 )
 
 // C07 — integers exact and in the shortest form.
@@ -35,6 +36,7 @@ func (c07) Cases(tier string, seed int64, kf *KnownFindings) []Case {
 	add(Case{Kind: "i32table"})
 	add(Case{Kind: "i64table"})
 	add(Case{Kind: "bulk", Seed: Mix(seed, 4242)})
+	add(Case{Kind: "samename", Seed: Mix(seed, 4343), Count: 60})
 	if tier == "quick" {
 		// 64 windows of 2^12 around spread points + random samples
 		r := rand.New(rand.NewSource(seed))
@@ -305,6 +307,45 @@ func (c07) Run(c Case, env *Env) Result {
 	case "bulk":
 		bulkCheck(env, &res, c, "int")
 		res.Sample(map[string]interface{}{"kind": "bulk", "what": "long lists of longs/ints and scalars behind 4070..4100 bytes of padding"})
+	case "samename":
+		// two Go struct types with ONE short name (packages zoo and alt4) and other field orders, decoded in one
+		// process, each message with its own maps: integers must land in the field whose NAME they travelled under
+		r := rand.New(rand.NewSource(c.Seed))
+		for j := 0; j < c.Count; j++ {
+			for k := 0; k < 2; k++ {
+				var v reflect.Value
+				if (j+k)%2 == 0 {
+					v = reflect.New(reflect.TypeOf(zoo.CaseInts{}))
+				} else {
+					v = reflect.New(reflect.TypeOf(alt4.CaseInts{}))
+				}
+				for f := 0; f < v.Elem().NumField(); f++ {
+					x, beyond := pickInt(r, v.Elem().Field(f).Type())
+					if beyond {
+						x = reflect.Zero(x.Type())
+					}
+					v.Elem().Field(f).Set(x)
+				}
+				res.Evals++
+				res.NTCount++
+				o := roundTrip(v.Interface())
+				feats := []string{"same-short-name-two-types", "pkg=" + v.Elem().Type().PkgPath()}
+				switch {
+				case o.Panic != nil:
+					viol(o.Panic.Class, feats, 0, fmt.Sprintf("%+v: panic %s", v.Elem().Interface(), o.Panic.Msg))
+				case o.EncErr != nil:
+					viol("enc-error", feats, 0, fmt.Sprintf("%+v: %v", v.Elem().Interface(), o.EncErr))
+				case o.DecErr != nil:
+					viol("dec-error", feats, 0, fmt.Sprintf("%+v (%x): %v", v.Elem().Interface(), o.Wire, o.DecErr))
+				default:
+					if d := zoo.Equiv(v.Interface(), o.Dec, zoo.EquivOpts{}); d != "" {
+						viol("silent-alteration", feats, 0, fmt.Sprintf("%s.%s %+v (%x): %s", v.Elem().Type().PkgPath(), v.Elem().Type().Name(), v.Elem().Interface(), o.Wire, d))
+					}
+				}
+				res.Count("same_name_types_round_tripped", 1)
+			}
+		}
+		res.Sample(map[string]interface{}{"kind": "samename", "what": "zoo.CaseInts and alt4.CaseInts (same short name, other field order) alternately in one process"})
 	case "kinds":
 		c07kinds(c, env, &res)
 	case "lit":
